@@ -354,9 +354,9 @@ def run(ctx: Ctx) -> int:
     rng = ctx.np_rng()
     t_end = time.time() + (140 if ctx.quick else 1500)
     quick = ctx.quick
-    # GHZ-type components with many correlated outputs (the int32 wrap of the unfixed prod showed at 34)
+    # GHZ-type components with many correlated outputs (the int32 wrap of the unfixed prod showed at 34; 129+ terms exercise the width of the power-of-two exponent)
     for n, kinds in ([(2, ["zz"]), (33, ["zz"]), (34, ["zz", "chain"]), (48, ["zz"]), (120, ["xx"])] if quick else
-                     [(k, ["zz", "xx", "chain"]) for k in [1, 2, 5, 31, 32, 33, 34, 35, 48, 64, 90, 120, 200]]):
+                     [(k, ["zz", "xx", "chain"]) for k in [1, 2, 5, 31, 32, 33, 34, 35, 48, 64, 90, 120, 129, 140, 200, 260]]):
         for kind in kinds:
             if time.time() > t_end:
                 break
